@@ -1,16 +1,134 @@
-(* C16 - the consensus tree contains exactly the clades with majority support.  Model: Model/Consensus.v *)
-From PV Require Import Model.Consensus.
+(* C16 - the consensus tree contains exactly the clades with majority support.
+   Model: Model/Consensus.v (clade = strictly increasing list of data indices; an input tree = the list of
+   its clades; Python set iteration order = list order, and every theorem holds for every order).
+   wfF F: every clade of F is non-empty and strictly increasing.  laminar F: any two clades of F are nested or
+   disjoint.  `Forall laminar trees` is the premise that each input is a tree. *)
+From PV Require Import Model.Consensus Proofs.ConsensusBase Proofs.ConsensusProofs Proofs.ConsensusGuard.
 Open Scope nat_scope.
 
-(* the pinned code merges relabelled nodes whose own-mutation sets coincide: three trees over four points,
-   threshold 1/2; {0,1} and {2,3} are retained, both are fully covered by their retained sub-clades, both
-   become the node frozenset() and the output tree has the clade {0,1,2,3} instead *)
+(* two clades whose support strictly exceeds a threshold >= 1/2 lie in a common input tree - unweighted ... *)
+Theorem majority_common_tree_counts : forall trees thr a b,
+  (half <= thr)%Qc -> (thr < support_counts trees a)%Qc -> (thr < support_counts trees b)%Qc ->
+  exists t, In t trees /\ has a t = true /\ has b t = true.
+Proof. exact majority_counts. Qed.
+Print Assumptions majority_common_tree_counts.
+(* ... and for non-negative weights summing to (at most) 1 *)
+Theorem majority_common_tree_weighted : forall (wt : list (ctree * Qc)) thr a b,
+  (forall p, In p wt -> (0 <= snd p)%Qc) -> (sumq (map snd wt) <= 1)%Qc ->
+  (half <= thr)%Qc -> (thr < support_weighted wt a)%Qc -> (thr < support_weighted wt b)%Qc ->
+  exists p, In p wt /\ has a (fst p) = true /\ has b (fst p) = true.
+Proof. exact majority_weighted. Qed.
+Print Assumptions majority_common_tree_weighted.
+
+(* hence the retained family is laminar *)
+Theorem majority_laminar : forall thr, (half <= thr)%Qc ->
+  (forall trees, Forall laminar trees -> laminar (retained_counts thr trees))
+  /\ (forall wt : list (ctree * Qc), (forall p, In p wt -> (0 <= snd p)%Qc) -> (sumq (map snd wt) <= 1)%Qc ->
+        Forall laminar (map fst wt) -> laminar (retained_weighted thr wt)).
+Proof.
+  intros thr Ht. split.
+  - intros trees. now apply majority_laminar_counts.
+  - intros wt Hw Hs. now apply majority_laminar_weighted.
+Qed.
+Print Assumptions majority_laminar.
+
+(* find_smallest_superset never reaches `raise Exception("Inconsistent set of clades")` on a laminar family,
+   in whatever order the sets are iterated *)
+Theorem C16_no_inconsistent_exception : forall F, wfF F -> NoDup F -> laminar F ->
+  exists E, consensus F = Some E.
+Proof. exact consensus_total. Qed.
+Print Assumptions C16_no_inconsistent_exception.
+Theorem C16_no_inconsistent_exception_retained : forall thr, (half <= thr)%Qc ->
+  (forall trees, Forall wfF trees -> Forall laminar trees -> exists E, consensus (retained_counts thr trees) = Some E)
+  /\ (forall wt : list (ctree * Qc), (forall p, In p wt -> (0 <= snd p)%Qc) -> (sumq (map snd wt) <= 1)%Qc ->
+        Forall wfF (map fst wt) -> Forall laminar (map fst wt) -> exists E, consensus (retained_weighted thr wt) = Some E).
+Proof.
+  intros thr Ht. split.
+  - intros trees Hw Hl. destruct (retained_counts_wf thr trees Hw) as [H1 H2].
+    apply consensus_total; [exact H1| exact H2| now apply majority_laminar_counts].
+  - intros wt Hp Hs Hw Hl. destruct (retained_weighted_wf thr wt Hw) as [H1 H2].
+    apply consensus_total; [exact H1| exact H2| now apply majority_laminar_weighted].
+Qed.
+Print Assumptions C16_no_inconsistent_exception_retained.
+
+(* the clades of the output tree are exactly the retained clades - under the guard that no two relabelled
+   nodes coincide; the relabelled graph is then a forest (one parent per node) *)
+Theorem C16_clades_exact : forall F E, wfF F -> NoDup F -> consensus F = Some E -> own_injective F E ->
+  rnodes E = map (own E) F
+  /\ Forall2 seteq (out_clades F E) F
+  /\ (forall k1 k2 k, In (k1, k) (redges E) -> In (k2, k) (redges E) -> k1 = k2).
+Proof.
+  intros F E Hw Hnd HE Hinj. destruct (clades_exact F E HE Hw Hinj Hnd) as [H1 H2].
+  split; [exact H1|]. split; [exact H2|].
+  intros k1 k2 k Ha Hb. exact (relabelled_parent_unique F E HE Hinj k1 k2 k Ha Hb Hnd).
+Qed.
+Print Assumptions C16_clades_exact.
+
+(* on a laminar family own sets of distinct clades are disjoint, so the guard is exactly
+   "at most one retained clade has an empty own-mutation set" *)
+Theorem C16_guard_is_at_most_one_empty : forall F E, consensus F = Some E -> wfF F -> laminar F ->
+  (at_most_one_empty_own F E <-> own_injective F E).
+Proof. exact guard_iff. Qed.
+Print Assumptions C16_guard_is_at_most_one_empty.
+
+(* data points: a point of no retained clade gets no node (clone id -1); a covered point gets the node that owns it *)
+Theorem C16_uncovered_are_minus_one : forall F E, consensus F = Some E -> wfF F ->
+  (forall x, (forall c, In c F -> ~ In x c) -> assign (rnodes E) x = None)
+  /\ (forall x c, In c F -> In x c -> exists k, assign (rnodes E) x = Some k /\ In k (rnodes E) /\ In x k).
+Proof.
+  intros F E HE Hw. split.
+  - intros x. exact (uncovered_unassigned F E HE x).
+  - intros x c. exact (covered_assigned F E HE Hw x c).
+Qed.
+Print Assumptions C16_uncovered_are_minus_one.
+
+(* the candidate repair - nodes keyed by the clade itself, own mutations stored as an attribute - gives
+   exactly the retained clades with no guard *)
+Theorem C16_fixed_clades_exact : forall F E, consensus F = Some E -> wfF F ->
+  Forall2 seteq (map (out_clade_fixed (fuel_of F) E) F) F.
+Proof. exact fixed_clades_exact. Qed.
+Print Assumptions C16_fixed_clades_exact.
+
+(* ---- witnesses on the faithful model of the pinned code ---- *)
+(* three trees over four points, threshold 1/2: {0,1} and {2,3} are retained, both are fully covered by their
+   retained sub-clades, both become the node frozenset() and the output tree has the clade {0,1,2,3} instead *)
 Definition wT1 : ctree := [[0;1];[0];[2;3];[2]].
 Definition wT2 : ctree := [[0;1];[1];[2;3];[3]].
 Definition wT3 : ctree := [[0];[1];[2];[3]].
 Example C16_empty_nodes_merge_refuted :
-  let F := retained_counts (Q2Qc (1#2)) [wT1; wT2; wT3] in
+  let F := retained_counts half [wT1; wT2; wT3] in
   F = [[0;1]; [2;3]; [0]; [1]; [2]; [3]]
-  /\ option_map (map norm) (consensus_clades F) = Some [[0;1;2;3]; [0]; [1]; [2]; [3]].
-Proof. split; vm_compute; reflexivity. Qed.
+  /\ option_map (map norm) (consensus_clades F) = Some [[0;1;2;3]; [0]; [1]; [2]; [3]]
+  /\ option_map (fun E => map norm (map (out_clade_fixed (fuel_of F) E) F)) (consensus F) = Some F.
+Proof. repeat split; vm_compute; reflexivity. Qed.
 Print Assumptions C16_empty_nodes_merge_refuted.
+(* worse: when one fully covered clade lies above another the merged node is its own descendant - the
+   relabelled graph has a cycle, no node is without predecessor, and no valid tree results *)
+Definition cT1 : ctree := [[0];[1];[1;2];[1;2;3]].
+Definition cT2 : ctree := [[2];[1;2];[1;2;3];[0;1;2;3]].
+Definition cT3 : ctree := [[0];[1];[2];[0;1;2;3]].
+Example C16_empty_nodes_cycle_refuted :
+  let F := retained_counts half [cT1; cT2; cT3] in
+  match consensus F with
+  | Some E => existsb (pair_eqb ([], [3])) (redges E) && existsb (pair_eqb ([3], [])) (redges E)
+              && Nat.eqb (length (rnodes E)) 5 && Nat.eqb (length F) 6 = true
+  | None => False
+  end.
+Proof. vm_compute. reflexivity. Qed.
+Print Assumptions C16_empty_nodes_cycle_refuted.
+
+(* non-vacuity: a weighted instance where every premise holds (distinct own sets, one of them empty) *)
+Definition nT1 : ctree := [[0;1;2];[0];[1;2]].
+Definition nT2 : ctree := [[0;1;2];[1];[0;2]].
+Definition nT3 : ctree := [[0];[1];[2]].
+Example C16_nontrivial :
+  let wt := [(nT1, Q2Qc (3#8)); (nT2, Q2Qc (1#4)); (nT3, Q2Qc (3#8))] in
+  let F := retained_weighted half wt in
+  F = [[0;1;2]; [0]; [1]]
+  /\ match consensus F with
+     | Some E => map (own E) F = [[2]; [0]; [1]] /\ map norm (out_clades F E) = F
+                 /\ assign (rnodes E) 2 = Some [2] /\ assign (rnodes E) 3 = None
+     | None => False
+     end.
+Proof. split; vm_compute; repeat split; reflexivity. Qed.
+Print Assumptions C16_nontrivial.
